@@ -478,6 +478,7 @@ func TestCheck(t *testing.T) {
 	e.deadline = deadline
 	r.Set("size_wall_s", time.Since(tz).Seconds())
 	r.Set("size_tasks", len(sizeTasks))
+	reportGrowth(r, os.Getenv("C19_GROWTH_DUMP") != "")
 	// the lexical layer may use at most 60 % of the remaining wall budget, so that a
 	// loaded machine cuts it short (non-exhaustive) and not the k = 2 families after it
 	tl := time.Now()
@@ -575,7 +576,9 @@ func TestCheck(t *testing.T) {
 		"in every structural context of its root block (route: bare, shorthand, single route in a wrapper, first / middle / last of 2 and 3 consecutive routes of inbound / outbound / internal, consecutive shorthands, first / last of two bare routes; named matcher: alone, first / last / middle of 2-3; other blocks: as they stand), "+
 		"thorough also lengths aligned so that the formatted line, the source line and the whole formatted text are B-1, B, B+1 bytes for B = 4 096 and 65 536; every repeatable directive and name/value pair directive with 100 / 1 000 / 10 000 / 65 537 elements (one line, repeated, ten per line; alternating two values / numbered; quoted / unquoted), every directive of the table repeated 100 / 1 000 times, "+
 		"100 / 1 000 deliver blocks, secrets, named matchers with references, programs of 100 / 1 000 / 10 000 routes in nine groupings (also with one 65 536 / 65 537 byte value in the first / middle / last route); comment lines and runs of blank lines / blanks / tabs / CRLF of every length class and 100 ... 65 537 comment lines at every token boundary of the base program in the structural contexts "+
-		"(quick: the 65 536 / 65 537 / 1 MiB classes in the contexts bare and middle / last of a three-route inbound wrapper, 1 000 / 10 000 elements); the size family, the k = 1, lexical-class, standalone, layout and (first environment) composition families are also judged by the survival census (no value of the input AST is missing among the tokens of the formatted text, no AST field occurs less often after the round trip); "+
+		"(quick: the 65 536 / 65 537 / 1 MiB classes in the contexts bare and middle / last of a three-route inbound wrapper, 1 000 / 10 000 elements); "+
+		"growth of the whole text under formatting: the generators of N routes (nine groupings), N deliver blocks, N secrets, N named matchers and of every repeatable / pair directive re-spelled compactly (no white space around braces, one blank between tokens; thorough also all on one line with blanks) and N chosen as a chain - the source of text k+1 is the longest that is not longer than the formatted text of text k - "+
+		"so that every total size L from 4 KiB to 2 MiB (thorough: 1 KiB to 8 MiB, every shape) is straddled by a text of at most L bytes whose formatted text is longer than L (quick: the route groupings all-bare / one inbound wrapper / inbound shorthands, deliver blocks, secrets, matchers); the size family, the k = 1, lexical-class, standalone, layout and (first environment) composition families are also judged by the survival census (no value of the input AST is missing among the tokens of the formatted text, no AST field occurs less often after the round trip); "+
 		"texts the parser rejects are skipped and counted. A case is distinct/non-trivial when it parsed: key = (block kind, directive, spelling) per chosen slot, or the layout shape.")
 	r.Assume("environment is fixed by the harness: C19_E<n> env vars and c19f_e<n> files (relative to a private cwd) hold the placeholder values, C19_UNSET is unset; nothing else of the process environment is referenced by generated texts")
 	r.Assume("ValidationResult is compared as OK + multiset of Errors + multiset of Warnings (exact text, no positions are embedded by Compile): compileVars ranges over a Go map, so the order of several vars errors is undefined even for a single AST")
@@ -584,6 +587,8 @@ func TestCheck(t *testing.T) {
 		"the cross-environment clause compiles the text formatted under the first environment in the second one only when the two formatted texts differ (equal texts need no second compile)")
 	r.Assume("size family: lengths are the usual machine boundaries (page, 64 KiB, 1 MiB), not limits read from the code; nothing above 1 MiB per value, 65 537 list elements and 10 000 routes is generated; a long value is one periodic run (a, ä, \\\\, \\\", blank, 0, or v itself), not arbitrary content; " +
 		"for the aligned lengths the real formatter is used as a ruler on a short twin (generator only: a wrong ruler shifts the lengths, never the verdict); the survival census reads the formatted text with the harness's own token reader and counts AST fields by reflection (exported fields, ...Quoted flags, header comments and channel types left out)")
+	r.Assume("growth chains: the real formatter measures how long the formatted text of step k is (generator only: it decides which N comes next, never the verdict); a chain is given up - counted, no claim about its range - when the parser rejects the compact spelling, when a step grows the text by less than 10 % or after " + fmt.Sprint(growMaxSteps) + " steps; " +
+		"only the total size in bytes (and with it the line count of a one-line source) is swept, each shape on its own: no file that mixes the shapes, nothing above 8 MiB")
 	r.Assume("lexical layer: the token split is done by the harness on its own rendered text (blank/LF separated, quotes and placeholders kept whole) and is only a generator; whether a symbol separates tokens, joins them, starts a comment or is rejected is left to the parser, and every accepted text is judged by the same round-trip oracle. Comments longer than ~40 bytes, more than two varied boundaries per file, and k = 2 programs under the lexical layer are not enumerated")
 	r.Assume("a text that does not parse cannot be formatted: checked as 'config.Parse never returns an error together with an AST' (every caller formats only what Parse returned without error)")
 	r.Assume("bounded: at most two optional slots vary per program (plus their required siblings/referenced blocks); interactions of three or more directives are not enumerated; comments are semantic no-ops and only their acceptance/stability is checked")
